@@ -52,6 +52,19 @@ type Job interface {
 	Run(deadline time.Time) *JobResult
 }
 
+// Resumable jobs enumerate numbered items and announce each one with TraceItem
+// before trying it: when an item kills the worker process the parent attributes the
+// death to that item and restarts the job at the next one.
+type Resumable interface {
+	Job
+	RunFrom(start int, deadline time.Time) *JobResult
+}
+
+// TraceItem records "about to try item k" (with the signature key of that input).
+func TraceItem(job string, k int, sigKey string, detail string) {
+	Trace(fmt.Sprintf("ITEM %d SIG %s JOB %s DETAIL %s", k, sigKey, job, detail))
+}
+
 // Trace is written before every execution so that a parent can attribute the
 // death of a worker process to the execution that caused it.
 var traceFile *os.File
@@ -227,19 +240,51 @@ func Main(spec *Spec) {
 						return
 					}
 				}
-				res, crashed := wp.run(ji)
-				if crashed != "" {
-					res = &JobResult{Name: jobs[ji].Name(), Capped: true}
-					res.Violations = append(res.Violations, Violation{
-						Sig: "crash:" + crashSig(crashed), Job: jobs[ji].Name(),
-						Msg:    "the process died while exploring this job (a panic on a kernel/coroutine/worker goroutine cannot be recovered): " + tail(crashed, 1500),
-						Replay: map[string]any{"job": jobs[ji].Name(), "trace": wp.lastTrace()},
-					})
+				var res *JobResult
+				start := 0
+				for {
+					part, crashed := wp.run(ji, start)
+					if crashed == "" {
+						if res == nil {
+							res = part
+						} else {
+							mergeInto(res, part)
+						}
+						break
+					}
+					tr := wp.lastTrace()
+					item, sigKey, detail := parseItemTrace(tr)
+					v := Violation{Job: jobs[ji].Name(), Replay: map[string]any{"job": jobs[ji].Name(), "trace": tr}}
+					if item >= 0 {
+						v.Sig = "crash:" + sigKey + ":" + crashSig(crashed)
+						v.Msg = fmt.Sprintf("the server process died on input %s\n%s", detail, tail(crashed, 1500))
+					} else {
+						v.Sig = "crash:" + crashSig(crashed)
+						v.Msg = "the process died while exploring this job (a panic on a kernel/coroutine/worker goroutine cannot be recovered): " + tail(crashed, 1500)
+					}
+					if res == nil {
+						res = &JobResult{Name: jobs[ji].Name()}
+					}
+					res.Violations = append(res.Violations, v)
 					wp.kill()
 					wp = nil
+					_, resumable := jobs[ji].(Resumable)
 					mu.Lock()
-					crashes++ // after a few process deaths the remaining jobs are not started
+					if !(resumable && item >= 0) {
+						crashes++ // after a few process deaths the remaining jobs are not started
+					}
 					mu.Unlock()
+					if !(resumable && item >= 0) || len(res.Violations) > 200 {
+						res.Capped = true
+						break
+					}
+					start = item + 1
+					var err error
+					wp, err = startWorker(*tier, *only, deadline)
+					if err != nil {
+						res.Capped = true
+						break
+					}
 				}
 				mu.Lock()
 				results[ji] = res
@@ -257,6 +302,57 @@ func Main(spec *Spec) {
 	}
 
 	finish(spec, *tier, seed, start, jobs, results)
+}
+
+func parseItemTrace(tr string) (int, string, string) {
+	if !strings.HasPrefix(tr, "ITEM ") {
+		return -1, "", ""
+	}
+	rest := tr[5:]
+	sp := strings.Index(rest, " SIG ")
+	if sp < 0 {
+		return -1, "", ""
+	}
+	k, err := strconv.Atoi(rest[:sp])
+	if err != nil {
+		return -1, "", ""
+	}
+	rest = rest[sp+5:]
+	sig, detail := rest, ""
+	if j := strings.Index(rest, " JOB "); j >= 0 {
+		sig = rest[:j]
+		if d := strings.Index(rest, " DETAIL "); d >= 0 {
+			detail = rest[d+8:]
+		}
+	}
+	return k, sig, detail
+}
+
+func mergeInto(a, b *JobResult) {
+	a.Executions += b.Executions
+	a.States += b.States
+	a.Transitions += b.Transitions
+	a.Cut += b.Cut
+	if b.MaxDepth > a.MaxDepth {
+		a.MaxDepth = b.MaxDepth
+	}
+	a.Capped = a.Capped || b.Capped
+	a.Outcomes = append(a.Outcomes, b.Outcomes...)
+	a.Violations = append(a.Violations, b.Violations...)
+	if len(a.Samples) == 0 {
+		a.Samples = b.Samples
+	}
+	for k, v := range b.Counters {
+		if a.Counters == nil {
+			a.Counters = map[string]int64{}
+		}
+		a.Counters[k] += v
+	}
+	a.Notes = append(a.Notes, b.Notes...)
+	if b.HarnessErr != "" {
+		a.HarnessErr = b.HarnessErr
+	}
+	a.WallS += b.WallS
 }
 
 func crashSig(stderr string) string {
@@ -461,14 +557,27 @@ func runWorker(jobs []Job) {
 	in := bufio.NewScanner(os.Stdin)
 	out := bufio.NewWriter(os.Stdout)
 	for in.Scan() {
-		ji, err := strconv.Atoi(strings.TrimSpace(in.Text()))
+		parts := strings.Fields(in.Text())
+		ji, err := -1, error(nil)
+		start := 0
+		if len(parts) >= 1 {
+			ji, err = strconv.Atoi(parts[0])
+		}
+		if len(parts) >= 2 {
+			start, _ = strconv.Atoi(parts[1])
+		}
 		if err != nil || ji < 0 || ji >= len(jobs) {
 			fmt.Fprintf(os.Stderr, "worker: bad job index %q\n", in.Text())
 			os.Exit(3)
 		}
 		Trace("JOB " + jobs[ji].Name())
 		t0 := time.Now()
-		res := jobs[ji].Run(workerDeadline)
+		var res *JobResult
+		if rj, ok := jobs[ji].(Resumable); ok {
+			res = rj.RunFrom(start, workerDeadline)
+		} else {
+			res = jobs[ji].Run(workerDeadline)
+		}
 		res.Name = jobs[ji].Name()
 		res.WallS = time.Since(t0).Seconds()
 		b, _ := json.Marshal(res)
@@ -529,8 +638,8 @@ func startWorker(tier, only string, deadline time.Time) (*workerProc, error) {
 	return wp, nil
 }
 
-func (wp *workerProc) run(ji int) (*JobResult, string) {
-	fmt.Fprintf(wp.in, "%d\n", ji)
+func (wp *workerProc) run(ji int, start int) (*JobResult, string) {
+	fmt.Fprintf(wp.in, "%d %d\n", ji, start)
 	wp.in.Flush()
 	line, err := wp.out.ReadBytes('\n')
 	if err != nil {
